@@ -231,6 +231,12 @@ type ConnTap struct {
 	Datagrams           []*DatagramInfo
 	HandshakeDoneSeen   bool
 	Unopened            int
+	// C07 timeliness: ack-eliciting 1-RTT packets delivered (intact, for the first time, in order, after the
+	// handshake was done) to side r, by packet number, with the time of delivery; removed once side r covers
+	// them with an ACK, emits a CONNECTION_CLOSE, or is found overdue
+	awaitAck     [2]map[uint64]time.Duration
+	maxDeliv1RTT [2]int64
+	now          time.Duration // emission time of the datagram being observed
 	pktBytes            map[string][]byte
 }
 
@@ -259,6 +265,8 @@ func (w *Wire) newConn(clientAddr string, version uint32, dcid, scid []byte) *Co
 		c.IssuedCIDs[d] = map[uint64][]byte{}
 		c.ResetTokens[d] = map[uint64][]byte{}
 		c.RetiredSeqs[d] = map[uint64]bool{}
+		c.awaitAck[d] = map[uint64]time.Duration{}
+		c.maxDeliv1RTT[d] = -1
 		for s := 0; s < 3; s++ {
 			c.largest[d][s] = -1
 			c.AckLargestTo[d][s] = -1
@@ -390,6 +398,7 @@ func (c *ConnTap) shortLen(dir Dir) func(b []byte) int {
 
 func (c *ConnTap) observe(d *DatagramInfo) {
 	dir := d.Dir
+	c.now = d.Time
 	// ---- C14 wire layer: until the client's address is validated (a client Handshake packet was
 	// delivered to the server, or an Initial carrying the token of a genuine Retry), the server may only
 	// send while what it has sent so far is below three times what was delivered to it; the datagram
@@ -457,6 +466,29 @@ func (c *ConnTap) observe(d *DatagramInfo) {
 	}
 	if dir == C2S && !c.serverDelivered {
 		c.FirstFlight = append(c.FirstFlight, d)
+	}
+	// ---- C07 wire layer, timeliness: a side that goes on sending 1-RTT packets after max_ack_delay has
+	// passed since an ack-eliciting packet was delivered to it must have acknowledged that packet
+	if len(c.awaitAck[dir]) > 0 {
+		if len(c.Closes[dir]) > 0 {
+			c.awaitAck[dir] = map[uint64]time.Duration{}
+			return
+		}
+		sends1RTT := false
+		for i := range d.Packets {
+			if d.Packets[i].Opened && d.Packets[i].Kind == KindOneRTT {
+				sends1RTT = true
+			}
+		}
+		if sends1RTT {
+			for pn, at := range c.awaitAck[dir] {
+				if late := d.Time - at; late > c.ackBound(dir) {
+					delete(c.awaitAck[dir], pn)
+					c.Counts["c07_ack_delays_checked"]++
+					c.anomaly("C07", "C07|wire|ack-overdue", "%s sends a 1-RTT packet %v after ack-eliciting 1-RTT packet %d was delivered to it, without having acknowledged it (bound %v)", dir, late, pn, c.ackBound(dir))
+				}
+			}
+		}
 	}
 }
 
@@ -850,6 +882,18 @@ func (c *ConnTap) frame(dir Dir, kind Kind, pi *PacketInfo, f *Frame) {
 				c.anomaly("C07", "C07|wire|ack-of-undelivered-packet", "%s ACK range [%d,%d] in space %d is implausibly large", dir, r.Smallest, r.Largest, space)
 				continue
 			}
+			if kind == KindOneRTT && len(c.awaitAck[dir]) > 0 {
+				for pn, at := range c.awaitAck[dir] {
+					if pn < r.Smallest || pn > r.Largest {
+						continue
+					}
+					delete(c.awaitAck[dir], pn)
+					c.Counts["c07_ack_delays_checked"]++
+					if late := c.now - at; late > c.ackBound(dir) {
+						c.anomaly("C07", "C07|wire|ack-late", "%s acknowledged ack-eliciting 1-RTT packet %d only %v after it was delivered (bound %v)", dir, pn, late, c.ackBound(dir))
+					}
+				}
+			}
 			for pn := r.Smallest; pn <= r.Largest; pn++ {
 				if !c.DeliveredPN[peer][space][pn] {
 					c.anomaly("C07", "C07|wire|ack-of-undelivered-packet", "%s acknowledged packet number %d in space %d, which was not delivered to it", dir, pn, space)
@@ -858,6 +902,26 @@ func (c *ConnTap) frame(dir Dir, kind Kind, pi *PacketInfo, f *Frame) {
 			}
 		}
 	}
+}
+
+// AckSlack is added to max_ack_delay before an acknowledgement counts as late on the wire.
+const AckSlack = 5 * time.Millisecond
+
+// ackBound is the longest time side dir may take from the delivery of an ack-eliciting 1-RTT packet to the
+// emission of an ACK covering it: the larger of the max_ack_delay it advertised and the implementation's
+// fixed 25 ms, plus AckSlack.
+func (c *ConnTap) ackBound(dir Dir) time.Duration {
+	b := 25 * time.Millisecond
+	tp := c.ClientTP
+	if dir == S2C {
+		tp = c.ServerTP
+	}
+	if tp != nil {
+		if v := time.Duration(tp.Int(TPMaxAckDelay, 25)) * time.Millisecond; v > b {
+			b = v
+		}
+	}
+	return b + AckSlack
 }
 
 func (c *ConnTap) peerTP(dir Dir) *TPSet {
@@ -964,6 +1028,15 @@ func (w *Wire) Delivered(d *DatagramInfo, mod Mod, now time.Duration) {
 			continue
 		}
 		space := p.Kind.Space()
+		if p.Kind == KindOneRTT {
+			rcv := d.Dir.Other()
+			if p.AckElic && c.HandshakeDoneSeen && !c.DeliveredPN[d.Dir][space][p.PN] && int64(p.PN) > c.maxDeliv1RTT[d.Dir] && len(c.Closes[rcv]) == 0 {
+				c.awaitAck[rcv][p.PN] = now
+			}
+			if int64(p.PN) > c.maxDeliv1RTT[d.Dir] {
+				c.maxDeliv1RTT[d.Dir] = int64(p.PN)
+			}
+		}
 		c.DeliveredPN[d.Dir][space][p.PN] = true
 		if d.Dir == C2S && p.Kind == KindHandshake {
 			c.ClientHSDelivered = true
